@@ -9,7 +9,7 @@
    is DERIVED here from the theorems of Props/C01.v (each pipeline = map canonical_cell).
    Columns handled by user callables (text_embedded, image_embedded, text_tokenized) are
    opaque row ids.  Tied to /repo by the correspondence run of ./check C04.  None = raises. *)
-From Coq Require Import List Arith ZArith Bool String.
+From Coq Require Import List Arith ZArith QArith Bool String.
 From PF Require Import Lib.ListX Gen.Tables Model.Ragged Model.Mapper Model.MapperSpec Model.Converter Model.ConverterSpec
   Proofs.MapperProofs Model.ConverterState Proofs.ConverterStateProofs.
 Import ListNotations.
@@ -138,6 +138,41 @@ Theorem multicategorical_unseen_dropped :
                forall k, In k ks <-> exists cat, nth_error cats k = Some cat /\ In cat toks.
 Proof. exact canon_multi_index_set. Qed.
 Print Assumptions multicategorical_unseen_dropped.
+
+(* ---- category values WITH their Python types (mapper.py CategoricalTensorMapper.forward merges on
+   object keys: numbers compare by value, 1 == 1.0, a str equals only the same str, +/-inf only itself).
+   The presentation of typed values to the untyped pipeline model (`norm`, what the harness ships) preserves
+   exactly that key equality, so the canonical cell of C01 is DERIVED for every mixture of value types *)
+Theorem typed_keys_normalise_faithfully :
+  forall a b, wf_tval a -> wf_tval b -> pval_eqb (norm a) (norm b) = key_eqb a b.
+Proof. exact norm_reflects_key_equality. Qed.
+Print Assumptions typed_keys_normalise_faithfully.
+
+Theorem typed_categorical_merge_is_canon_cat :
+  forall cats c, Forall wf_tval cats -> (forall v, c = Some v -> wf_tval v) ->
+    [SInt (typed_cat_cell cats c)] = canon_cat (map norm cats) (option_map norm c).
+Proof. exact typed_merge_is_canon_cat. Qed.
+Print Assumptions typed_categorical_merge_is_canon_cat.
+
+(* unseen values ADJACENT to the fitted ones: a non-integral float is never an integer category, whatever it
+   truncates or rounds to; an integral float IS that integer; a value of another type never matches *)
+Theorem nonintegral_float_is_unseen :
+  forall cats q, Forall is_tint cats -> (forall z, ~ (q == inject_Z z)%Q) ->
+    typed_cat_cell cats (Some (TFloat q)) = (-1)%Z.
+Proof. exact nonintegral_float_unseen. Qed.
+Print Assumptions nonintegral_float_is_unseen.
+
+Theorem integral_float_is_that_integer :
+  forall cats z, typed_cat_cell cats (Some (TFloat (inject_Z z))) = typed_cat_cell cats (Some (TInt z)).
+Proof. exact integral_float_is_the_integer. Qed.
+Print Assumptions integral_float_is_that_integer.
+
+Theorem value_of_another_type_is_unseen :
+  forall cats v,
+    (Forall is_tnumber cats /\ (is_tstr v \/ exists p, v = TInf p)) \/ (Forall is_tstr cats /\ ~ is_tstr v) ->
+    typed_cat_cell cats (Some v) = (-1)%Z.
+Proof. exact other_type_unseen. Qed.
+Print Assumptions value_of_another_type_is_unseen.
 
 (* ---- y only when the frame has the target column *)
 Theorem no_target_column_no_y :
@@ -276,3 +311,13 @@ Proof.
   do 4 eexists. split; [vm_compute; reflexivity|]. split; [vm_compute; reflexivity|].
   split; [reflexivity|]. split; vm_compute; reflexivity.
 Qed.
+
+Example ex_typed_values :
+  let cats := [TInt 1; TInt 2; TInt 10] in
+  Forall wf_tval cats /\
+  map (typed_cat_cell cats) [Some (TFloat (5 # 2)); Some (TFloat (2 # 1)); Some (TFloat (19 # 10)); Some (TStr [122%Z; 122%Z]);
+                             Some (TInf true); None; Some (TInt 10)]
+  = [-1; 1; -1; -1; -1; -1; 2]%Z /\
+  map (canon_cat (map norm cats)) (map (option_map norm) [Some (TFloat (5 # 2)); Some (TFloat (2 # 1)); Some (TInt 10)])
+  = [[SInt (-1)]; [SInt 1]; [SInt 2]].
+Proof. split; [repeat constructor|]. split; vm_compute; reflexivity. Qed.
